@@ -76,7 +76,7 @@ PURITY_TEXT = " A sample of the calls is additionally repeated on shared objects
 # id -> (technique suffix, text suffix): added in later sessions
 EXTRA = {
  "C01": (PURITY_TECH, " The verdicts of many different chains (conforming and deviating in every rule, some sharing delegations and loaders) are re-computed in other orders and from 16..32 goroutines at once, in the plain and in a -race build, and must not change. Chains of up to 48 links, and history independence: the same invocation token checked with the full loader, a depleted loader and the full loader again."),
- "C02": ("", " The lattice also holds an empty inner segment and two letters that Unicode case folding identifies; a scale family runs chains of up to 48 links over commands of up to 40 long / non-ASCII segments with zero or one widening link."),
+ "C02": ("", " Every judged verdict of C01-C05 is preceded, in rotation, by calls that must not matter (a check against a loader failing half-way, the same check again, a check through a misbehaving hook); a second chain built from the very same lower delegations under other upper links is judged on its own. The lattice also holds an empty inner segment and two letters that Unicode case folding identifies; a scale family runs chains of up to 48 links over commands of up to 40 long / non-ASCII segments with zero or one widening link."),
  "C03": ("", " Policies of up to 130 statements per link, chains of up to 40 links, look-alike twin statements (100 vs 100.0, 5 vs \"5\") of which one is false, heterogeneous quantified lists, and the same delegation objects matched against satisfying / violating / satisfying invocations in turn."),
  "C04": ("", " Probes are repeated in other time zones; hand-signed payloads carry every delicate timestamp; chains of up to 40 links; not-before bounds more than 292 years ahead."),
  "C05": ("", " Also chains of up to 48 links, deep / long / non-ASCII commands, 130-statement policies, a principal occurring three times, expirations more than 292 years ahead, every chain checked twice and through a second invocation."),
@@ -91,7 +91,7 @@ EXTRA = {
  "C15": (PURITY_TECH, " All pairs over segments that differ only up to a normalisation (case folding, NFC/NFD, width, percent-encoding) and about 2000 runes on which the readings of 'upper-case' agree." + PURITY_TEXT),
  "C16": (PURITY_TECH, " Fabricated RSA public keys of 10 modulus lengths x 7 public exponents." + PURITY_TEXT),
  "C17": (PURITY_TECH, " Set cardinalities across the framing thresholds (24, 256, 65536 entries) with a corruption planted in the last entry, CAR section sizes swept around every power of two, foreign-form section CIDs." + PURITY_TEXT),
- "C18": ("", " Seven kinds of reader fault (generic, io.ErrUnexpectedEOF, closed pipe, deadline, cancellation, no progress, wrapped errno) incl. a fault after the last byte was delivered, streams interleaving (0, nil) reads, and writers that accept fewer bytes than offered without reporting an error."),
+ "C18": (PURITY_TECH, " The stream readers also run on slow, yielding streams from 16..32 goroutines at once (plain and -race build) and must return what they return alone; a fault-free call after a faulted one must write / read what the first fault-free call did. Seven kinds of reader fault (generic, io.ErrUnexpectedEOF, closed pipe, deadline, cancellation, no progress, wrapped errno) incl. a fault after the last byte was delivered, streams interleaving (0, nil) reads, and writers that accept fewer bytes than offered without reporting an error."),
  "C19": (PURITY_TECH, " Entropy-source faults, keys derived from the right key by truncation / extension." + PURITY_TEXT),
 }
 
